@@ -132,7 +132,7 @@ func plans() []plan {
 	add("cmap-delete-runlock-reader", 6, 200)
 	add("fifo-mutex", 500, 30000)
 	add("fifo-map", 1200, 80000)
-	add("cmap", 1500, 90000)
+	add("cmap", 1500, 40000)
 	add("context", 800, 50000)
 	add("outercancel", 1000, 60000)
 	add("stress", 160, 8000)
